@@ -354,7 +354,7 @@ def gen_random(rng):
 
 
 def plan(tier, seed):
-    nrand = 6000 if tier == "quick" else 200000
+    nrand = 20000 if tier == "quick" else 200000
     nparts = 16 if tier == "quick" else 48
     shards = [dict(kind="small", part=i, parts=nparts) for i in range(nparts)]
     for s, c in harness.split_range(nrand, nparts):
